@@ -117,7 +117,7 @@ CHECKS["C10"] = dict(
     engine="XH+PYRE",
     technique="symbolic execution (CrossHair + z3): f(f(t)) == f(t) for the real find_and_replace_header over every body shape in the bound",
     text="For every style x form and every body in the bound (as C08), CrossHair confirms that applying the real find_and_replace_header (with the real create_header and reader) twice with identical arguments gives the same text as applying it once - i.e. the tool finds the header it wrote and does not stack a second one; also for requests carrying only contributors / only a licence / only a copyright notice and for an existing header of more than 4 KiB (80 holders).",
-    note="--no-replace is excluded (stacking is that option's documented meaning). Known finding: Julia with --multi-line never finds its own '#=' header (single-line '#' detection is tried first) and stacks headers.",
+    note="--no-replace is excluded (stacking is that option's documented meaning). The defect this check found (Julia with --multi-line never found its own '#=' header and stacked headers) is repaired in /repo (fix: commit); no carve-out remains.",
 )
 
 CHECKS["C11"] = dict(
